@@ -558,7 +558,7 @@ struct refb { int on; int64_t level[2], rate[2], burst[2]; unsigned tick_ms; uin
 struct rsub {
 	int id, fd, peer, dirs, alive, stall, in_group, has_cfg; struct bufferevent *bev;
 	struct ev_token_bucket_cfg *cfg; int64_t msr, msw;   /* max_single_read/write as configured */
-	struct acct own[2]; struct refb ref; int en[2]; int64_t p_since[2]; int reported[2];
+	struct acct own[2]; struct refb ref; int en[2]; int64_t p_since[2], p_since_lib[2]; int reported[2];
 	int64_t moved[2]; int ms_reported[2]; int dirty[2]; int other_dry[2];
 };
 #define RMAX 8
@@ -687,6 +687,7 @@ static void r_obs(int sym, int fd, long req, long res)
 	if (s->has_cfg) { ref_update(&s->ref); s->ref.level[d] -= res; acct_add(&s->own[d], res, 0); if (s->ref.level[d] <= 0) s->other_dry[1 - d] = 1; }
 	if (s->in_group) { ref_update(&r_gref); r_gref.level[d] -= res; acct_add(&r_gacct[d], res, 0); }
 	if (s->p_since[d] >= 0) s->p_since[d] = now_us();
+	if (s->p_since_lib[d] >= 0) s->p_since_lib[d] = now_us();
 	VLOG("bev%d %s %ld", s->id, dir_name[d], res);
 }
 static void r_service_peers(void)
@@ -720,7 +721,20 @@ static void r_boundary(void)
 				ok = r_gref.level[d] >= (r_minshare > 1 ? r_minshare : 1);
 				if ((int64_t)r_gref.tick_ms * 1000 > w) w = (int64_t)r_gref.tick_ms * 1000;
 			}
-			if (!ok) { s->p_since[d] = -1; continue; }
+			if (!ok) { s->p_since[d] = -1; s->p_since_lib[d] = -1; continue; }
+			/* "within one tick of the bucket becoming positive": a group's bucket is refilled by the group's own
+			 * (persistent) timer, whose phase against the tick grid of the reference model is arbitrary, so the
+			 * library's bucket may turn positive up to one timer period after the model's.  One tick is demanded
+			 * from the moment the library's own group level allows a member to go, two from the model's. */
+			{
+				int lib_ok = 1;
+				if (s->in_group) {
+					int64_t gl = d ? bufferevent_rate_limit_group_get_write_limit(r_grp) : bufferevent_rate_limit_group_get_read_limit(r_grp);
+					lib_ok = gl >= (r_minshare > 1 ? r_minshare : 1);
+				}
+				if (!lib_ok) s->p_since_lib[d] = -1;
+				else if (s->p_since_lib[d] < 0) s->p_since_lib[d] = now_us();
+			}
 			if (s->p_since[d] < 0 || s->p_since[d] == now_us()) {
 				/* (re)start of the observation: was the other direction's bucket empty already? */
 				s->other_dry[d] = s->has_cfg && s->ref.level[1 - d] <= 0;
@@ -728,7 +742,8 @@ static void r_boundary(void)
 				continue;
 			}
 			r_progress_checks++;
-			if (now_us() - s->p_since[d] > w + 2000 && !s->reported[d]) {
+			if (((s->p_since_lib[d] >= 0 && now_us() - s->p_since_lib[d] > w + 2000) ||
+			     now_us() - s->p_since[d] > (s->in_group ? 2 * w : w) + 2000) && !s->reported[d]) {
 				char key[96];
 				s->reported[d] = 1;
 				/* witness class: was the other direction of the same bufferevent out of budget meanwhile
@@ -736,9 +751,11 @@ static void r_boundary(void)
 				int other = s->other_dry[d];
 				snprintf(key, sizeof(key), "C22:stalled:%s:%s%s", s->has_cfg ? (s->in_group ? "own+group" : "own-bucket") : "group-only", dir_name[d],
 				    other ? ":other-direction-exhausted" : "");
-				vh_viol(key, "bev%d %s: data and budget available (own level %lld, group level %lld, min_share %lld) and enabled for %lld us > one tick (%lld us) without a byte moved; lib susp r=0x%x w=0x%x enabled=0x%x | %s",
+				vh_viol(key, "bev%d %s: data and budget available (own level %lld, group level %lld, min_share %lld) and enabled for %lld us > one tick (%lld us) without a byte moved; lib susp r=0x%x w=0x%x enabled=0x%x; lib group level r=%lld w=%lld grp_susp r=%d w=%d pend r=%d w=%d | %s",
 				    s->id, dir_name[d], s->has_cfg ? (long long)s->ref.level[d] : -1LL, s->in_group ? (long long)r_gref.level[d] : -1LL, (long long)r_minshare,
-				    (long long)(now_us() - s->p_since[d]), (long long)w, BEV_UPCAST(s->bev)->read_suspended, BEV_UPCAST(s->bev)->write_suspended, s->bev->enabled, g_desc);
+				    (long long)(now_us() - s->p_since[d]), (long long)w, BEV_UPCAST(s->bev)->read_suspended, BEV_UPCAST(s->bev)->write_suspended, s->bev->enabled,
+				    r_grp ? (long long)bufferevent_rate_limit_group_get_read_limit(r_grp) : 0LL, r_grp ? (long long)bufferevent_rate_limit_group_get_write_limit(r_grp) : 0LL,
+				    r_grp ? (int)r_grp->read_suspended : 0, r_grp ? (int)r_grp->write_suspended : 0, r_grp ? (int)r_grp->pending_unsuspend_read : 0, r_grp ? (int)r_grp->pending_unsuspend_write : 0, g_desc);
 			}
 		}
 	}
@@ -840,7 +857,7 @@ static void r_clear_own(struct rsub *s)
 	bufferevent_set_rate_limit(s->bev, NULL);
 	acct_close(&s->own[0], "bev", "read", s->id); acct_close(&s->own[1], "bev", "write", s->id);
 	s->has_cfg = 0; s->ref.on = 0;
-	s->p_since[0] = s->p_since[1] = -1;
+	s->p_since[0] = s->p_since[1] = s->p_since_lib[0] = s->p_since_lib[1] = -1;
 	desc("noown%d;", s->id); hmix(150 + s->id, 0);
 }
 /* work bound: an operation moves at most max_single bytes per loop iteration, so keep
@@ -918,7 +935,7 @@ static void r_op(vh_rng *r)
 		if (s->in_group && !s->has_cfg) break;
 		if (s->in_group) { bufferevent_remove_from_rate_limit_group(s->bev); s->in_group = 0; desc("leave%d;", s->id); vh_stat("group_leaves"); }
 		else { bufferevent_add_to_rate_limit_group(s->bev, r_grp); s->in_group = 1; desc("join%d;", s->id); vh_stat("group_joins"); }
-		s->p_since[0] = s->p_since[1] = -1;
+		s->p_since[0] = s->p_since[1] = s->p_since_lib[0] = s->p_since_lib[1] = -1;
 		hmix(400 + s->id, s->in_group);
 		r_fix_max(s);
 		break;
@@ -933,12 +950,12 @@ static void r_op(vh_rng *r)
 	case 6: /* disable / enable a direction */
 		if (!(s->dirs & (1 << d)) || s->reported[d]) break;
 		if (s->en[d]) bufferevent_disable(s->bev, d ? EV_WRITE : EV_READ); else bufferevent_enable(s->bev, d ? EV_WRITE : EV_READ);
-		s->en[d] = !s->en[d]; s->p_since[d] = -1;
+		s->en[d] = !s->en[d]; s->p_since[d] = s->p_since_lib[d] = -1;
 		desc("%s%d%c;", s->en[d] ? "en" : "dis", s->id, d ? 'w' : 'r'); hmix(600 + s->id * 2 + d, s->en[d]);
 		break;
 	case 7: /* the peer stops / resumes draining (short writes) */
 		if (!(s->dirs & 2)) break;
-		s->stall = !s->stall; s->p_since[1] = -1; s->dirty[1] = 1;
+		s->stall = !s->stall; s->p_since[1] = s->p_since_lib[1] = -1; s->dirty[1] = 1;
 		desc("stall%d(%d);", s->id, s->stall); hmix(700 + s->id, s->stall);
 		vh_stat("peer_stalls");
 		break;
@@ -998,7 +1015,7 @@ static void case_ratelim(vh_rng *r)
 		s->bev = bufferevent_socket_new(B, fd[0], 0);
 		bufferevent_setcb(s->bev, r_readcb, r_writecb, r_eventcb, s);
 		bufferevent_setwatermark(s->bev, EV_WRITE, 131072, 0);
-		s->p_since[0] = s->p_since[1] = -1; s->dirty[0] = s->dirty[1] = 1;
+		s->p_since[0] = s->p_since[1] = s->p_since_lib[0] = s->p_since_lib[1] = -1; s->dirty[0] = s->dirty[1] = 1;
 		own = !with_group || vh_chance(r, 1, 2);
 		desc("bev%d(dirs %d);", i, s->dirs); hmix(50 + i, s->dirs);
 		if (own) {
